@@ -471,12 +471,27 @@ func (s *Scheme) Sign(c context.Context, msgHash []byte, topic string) ([]byte, 
 	ctx, cancel := context.WithCancel(c)
 	defer cancel()
 
+	// The clean-up of this session runs once, by whichever of the call and its background continuation gets there first:
+	// a continuation that is still on its way when the call has returned must not remove what a later session
+	// on the same topic has registered since.
+	var cleanupOnce, cleanupSyncTopicOnce sync.Once
+
 	cleanup := func() {
-		s.lock.Lock()
-		delete(s.syncsInProgress, string(topicHash))
-		delete(s.messageClassifiers, string(topicHash))
-		delete(s.rbcInProgress, string(topicHash))
-		s.lock.Unlock()
+		cleanupOnce.Do(func() {
+			s.lock.Lock()
+			delete(s.syncsInProgress, string(topicHash))
+			delete(s.messageClassifiers, string(topicHash))
+			delete(s.rbcInProgress, string(topicHash))
+			s.lock.Unlock()
+		})
+	}
+
+	cleanupSyncTopic := func() {
+		cleanupSyncTopicOnce.Do(func() {
+			s.lock.Lock()
+			delete(s.syncsInProgress, string(hash(topicHash)))
+			s.lock.Unlock()
+		})
 	}
 
 	var signedSuccessfully uint32
@@ -525,12 +540,6 @@ func (s *Scheme) Sign(c context.Context, msgHash []byte, topic string) ([]byte, 
 		s.syncsInProgress[string(syncTopic)] = sync.HandleMessage
 		s.lock.Unlock()
 
-		cleanupSyncTopic := func() {
-			s.lock.Lock()
-			delete(s.syncsInProgress, string(syncTopic))
-			s.lock.Unlock()
-		}
-
 		s.Logger.Infof("Synchronizing on pre-signing topic %s with %v", hex.EncodeToString(syncTopic)[:8], signers)
 
 		err = sync.Synchronize(ctx, func([]uint16) {
@@ -567,9 +576,7 @@ func (s *Scheme) Sign(c context.Context, msgHash []byte, topic string) ([]byte, 
 	defer func() {
 		cancel()
 		cleanup()
-		s.lock.Lock()
-		delete(s.syncsInProgress, string(hash(topicHash)))
-		s.lock.Unlock()
+		cleanupSyncTopic()
 	}()
 
 	go func() {
